@@ -141,7 +141,24 @@ fn step(h: &mut Handle, hid_: usize, st: &Value) -> Map<String, Value> {
             // SAFETY (harness only): the archive behind the handle is leaked and lives forever; the
             // file is always dropped before the handle is used again
             let arp: *mut ZipArchive<Yielding> = h.ar;
-            match unsafe { (*arp).by_index(i) } {
+            let pw = st.get("pw").and_then(|x| x.as_str()).map(unhex);
+            let raw = st.get("raw").and_then(|x| x.as_bool()).unwrap_or(false);
+            m.insert("pwkind".into(), st.get("pwkind").cloned().unwrap_or(json!("none")));
+            m.insert("raw".into(), json!(raw));
+            let opened: Result<ZipFile<'static>, String> = unsafe {
+                if raw {
+                    (*arp).by_index_raw(i).map_err(|e| err_class(&e).to_string())
+                } else if let Some(p) = &pw {
+                    match (*arp).by_index_decrypt(i, p) {
+                        Ok(Ok(f)) => Ok(f),
+                        Ok(Err(_)) => Err("invalid_password".to_string()),
+                        Err(e) => Err(err_class(&e).to_string()),
+                    }
+                } else {
+                    (*arp).by_index(i).map_err(|e| err_class(&e).to_string())
+                }
+            };
+            match opened {
                 Ok(f) => {
                     m.insert("r".into(), json!("ok"));
                     m.insert("dstart".into(), json!(f.data_start().min(2147483647)));
@@ -150,9 +167,25 @@ fn step(h: &mut Handle, hid_: usize, st: &Value) -> Map<String, Value> {
                     m.insert("crc".into(), json!(hex32(f.crc32())));
                     h.file = Some(f);
                 }
-                Err(e) => {
+                Err(c) => {
                     m.insert("ev".into(), json!("COpenFault"));
-                    m.insert("r".into(), json!(err_class(&e)));
+                    m.insert("r".into(), json!(c));
+                }
+            }
+        }
+        "stat" => {
+            // what the handle's open entry reports now (other handles may have been busy in between)
+            m.insert("ev".into(), json!("CStat"));
+            match h.file.as_ref() {
+                Some(f) => {
+                    m.insert("r".into(), json!("ok"));
+                    m.insert("dstart".into(), json!(f.data_start().min(2147483647)));
+                    m.insert("usize".into(), json!(f.size().min(2147483647)));
+                }
+                None => {
+                    m.insert("r".into(), json!("noentry"));
+                    m.insert("dstart".into(), json!(0));
+                    m.insert("usize".into(), json!(0));
                 }
             }
         }
